@@ -165,9 +165,10 @@ class CommHandler:
 
             hdr = self._parse.frame.hdr_decode(data=_bytes)
             if hdr.err is not EParseError.NOERR:  # pragma: no cover
-                # drop 1 byte from buffer
+                # drop 1 byte from buffer and let the thread loop see
+                # a stop request before we look at the rest
                 self._prev_read = _bytes[1:]
-                continue
+                return None, None
 
             # valid hdr
             return hdr, _bytes
